@@ -183,7 +183,10 @@ class Ctx:
             sys.stdout.write(p.stdout[-3000:])
             raise ToolError("harness run %s failed rc=%d" % (sub, p.returncode))
         obs = [json.loads(l) for l in open(outp)]
-        tool = [o for o in obs if o["obs"].get("kind") in ("tool-error", "unimplemented")]
+        # a panic inside the harness's own sources (a socket that could not be bound, an exhausted port range, a bug of ours) says nothing
+        # about the code under test: a tool error, never a violation
+        tool = [o for o in obs if o["obs"].get("kind") in ("tool-error", "unimplemented")
+                or (o["obs"].get("kind") == "panic" and str(o["obs"].get("where", "")).startswith("src/"))]
         if tool:
             raise ToolError("harness reported a tool error: %s" % json.dumps(tool[0])[:600])
         log("[vh] %s: %d scenarios executed on the real code%s in %.1fs" % (sub, len(obs), " (unoptimised build)" if dbg else (" (checked build)" if checked else ""), time.time() - t))
